@@ -2,25 +2,11 @@
    EncodeProofs.v (all commands but SGR) and EncodeSgrProofs.v (Face, FaceModify). *)
 From Coq Require Import List NArith ZArith Bool Lia ZifyBool ZifyN.
 From SNT Require Import Base.Outcome Encoder.Decimal Encoder.DecimalProofs Encoder.Utf8
-  Encoder.VT Encoder.VTProofs Encoder.Encode Encoder.Denote Encoder.EncodeProofs Encoder.EncodeSgrProofs
+  Encoder.VT Encoder.VTProofs Encoder.Encode Encoder.EncodeStream Encoder.Denote Encoder.EncodeProofs Encoder.EncodeSgrProofs
   Gen.TabEncoder.
 Import ListNotations.
 Local Open Scope N_scope.
 Arguments print : simpl never.
-
-(* a stream of commands, encoded one after the other into the same output *)
-Section Stream.
-  Variable pal256 : rgba -> N.
-  Variable gray4 : rgba -> N.
-  Fixpoint encode_stream (cp : caps) (cs : list cmd) : outcome (list N) :=
-    match cs with
-    | [] => Ok []
-    | c :: r =>
-        let* b := encode pal256 gray4 cp c in
-        let* br := encode_stream cp r in
-        Ok (b ++ br)
-    end.
-End Stream.
 
 Lemma app5 {A} (x y z w t : list A) : x ++ y ++ z ++ w ++ t = (x ++ y ++ z ++ w) ++ t.
 Proof. rewrite <- !app_assoc. reflexivity. Qed.
